@@ -320,47 +320,76 @@ def run_f3_f4(chk, P):
         pjs = list(f.calls('process_job'))
         r3.check(len(pjs) >= 1, f.name + ':process_job', f.loc, '%s never calls process_job()' % f.name)
         memcmps = list(f.calls('memcmp'))
-        for n, (bid, i, ev) in enumerate(pjs):
-            tb, m = result_tested(f, bid, i, ev)
-            oe = ok_edge(f, tb, m) if tb is not None else None
-            key = '%s:process_job#%d' % (f.name, n)
-            if oe is None:
-                r3.bad(key, ev['loc'], 'result of process_job() not tested')
+        rv = result_vars(f)
+
+        def buf_of(e):
+            b = cf.base_ref(e)
+            return b['n'] if b is not None and not b.get('g') and not b.get('p') else None
+        # compare buffers: local buffers compared against a field of the vector
+        cmpbufs = {}
+        good_memcmp = set()
+        for mb, mi, mev in memcmps:
+            a = mev['e']['a']
+            flds = vec_field_refs(a[0], vname) | vec_field_refs(a[1], vname)
+            buf = buf_of(a[0]) or buf_of(a[1])
+            if not flds or buf is None or buf == vname:
                 continue
-            # memcmps dominated by the ok edge and not dominated by a later process_job ok-edge
-            later = [b2 for (b2, _, _) in pjs[n + 1:]]
-            compared = set()
-            for mb, mi, mev in memcmps:
-                if oe not in dom.get(mb, ()):
-                    continue
-                if any(lb in dom.get(mb, ()) for lb in later):
-                    continue
-                flds = set()
-                for a in mev['e']['a'][:2]:
-                    flds |= vec_field_refs(a, vname)
-                if not flds:
-                    continue
-                # failing edge (memcmp != 0) must return 0
-                tbm, mm = result_tested(f, mb, mi, mev)
-                ne = None
-                if tbm is not None:
-                    fe0 = fail_edge(f, tbm, mm)  # edge when memcmp == 0 (match)
-                    su = f.blocks[tbm]['succ']
-                    ne = su[1] if su[0] == fe0 else su[0]
-                okm = ne is not None and must_fail(f, ne, result_vars(f))
-                r3.check(okm, '%s:memcmp(%s)@%s' % (f.name, ','.join(sorted(flds)), mev['loc'].split(':')[-1]), mev['loc'],
-                         '%s: a mismatch against %s does not make the KAT fail' % (f.name, sorted(flds)))
-                if okm:
-                    compared |= flds
-            need = []
-            if 'tag' in fields:
-                need.append({'tag'})
-            if 'cipher_text' in fields:
-                need.append({'cipher_text', 'plain_text'})
-            for nd in need:
-                r3.check(bool(compared & nd), key + ':' + '/'.join(sorted(nd)), ev['loc'],
-                         '%s: after process_job #%d no expected %s of the vector is compared (compared: %s)' % (
-                             f.name, n, ' or '.join(sorted(nd)), sorted(compared)))
+            cmpbufs.setdefault(buf, set()).update(flds)
+            tbm, mm = result_tested(f, mb, mi, mev)
+            ne = None
+            if tbm is not None:
+                fe0 = fail_edge(f, tbm, mm)  # edge taken when memcmp == 0 (match)
+                su = f.blocks[tbm]['succ']
+                ne = su[1] if su[0] == fe0 else su[0]
+            okm = ne is not None and must_fail(f, ne, rv)
+            r3.check(okm, '%s:memcmp(%s,%s)@%s' % (f.name, buf, ','.join(sorted(flds)), mev['loc'].split(':')[-1]), mev['loc'],
+                     '%s: a mismatch of %s against %s does not make the KAT fail' % (f.name, buf, sorted(flds)))
+            if okm:
+                good_memcmp.add(id(mev))
+        r3.check(bool(cmpbufs), f.name + ':compares', f.loc, '%s compares no output against its vector' % f.name)
+        if 'tag' in fields:
+            r3.check(any('tag' in v for v in cmpbufs.values()), f.name + ':tag', f.loc, '%s never compares the expected tag' % f.name)
+        if 'cipher_text' in fields:
+            r3.check(any('cipher_text' in v for v in cmpbufs.values()), f.name + ':cipher_text', f.loc,
+                     '%s never compares the expected cipher text' % f.name)
+            r3.check(any('plain_text' in v for v in cmpbufs.values()), f.name + ':plain_text', f.loc,
+                     '%s never compares the recovered plain text' % f.name)
+        # producers: process_job (all compare buffers) and direct-API calls through manager handlers taking the buffer
+        producers = []
+        for bid, i, ev in f.calls():
+            e = ev['e']
+            if e.get('fn') == 'process_job':
+                for buf in cmpbufs:
+                    producers.append((bid, i, ev, buf, 'process_job'))
+            elif 'callee' in e:
+                c = cf.strip_casts(e['callee'])
+                if c.get('k') == 'mem' and 'IMB_MGR' in c.get('rec', '') and c['f'] not in (
+                        'get_next_job', 'submit_job', 'flush_job', 'self_test_cb_fn'):
+                    for a in e['a']:
+                        bn = buf_of(a)
+                        if bn in cmpbufs and cf.strip_casts(a).get('k') in ('ref', 'un', 'idx'):
+                            producers.append((bid, i, ev, bn, c['f']))
+        for bid, i, ev, buf, what in producers:
+            def hit(e2, buf=buf):
+                if e2['k'] == 'call' and e2['e'].get('fn') == 'memcmp' and id(e2) in good_memcmp and \
+                        (buf_of(e2['e']['a'][0]) == buf or buf_of(e2['e']['a'][1]) == buf):
+                    return True
+                if e2['k'] == 'return' and e2.get('val') is not None and cf.evalc(e2['val']) == 0:
+                    return True
+                return False
+
+            def end(e2, buf=buf):
+                if e2['k'] == 'return':
+                    return True
+                if e2['k'] == 'call' and e2['e'].get('fn') in ('memset', 'memcpy') and buf_of(e2['e']['a'][0]) == buf:
+                    return True
+                if e2['k'] == 'call' and e2['e'].get('fn') == 'process_job':
+                    return True
+                return False
+            okp, wit = cf.walk_paths_must(f, bid, None, hit, end, start_idx=i + 1)
+            r3.check(okp, '%s:%s->%s@%s' % (f.name, what, buf, ev['loc'].split(':')[-1]), ev['loc'],
+                     '%s: output buffer `%s` produced by %s at %s can reach a success return / be overwritten without being '
+                     'compared against the vector' % (f.name, buf, what, ev['loc']))
         # job status tested for COMPLETED happens in process_job
         # F4: corrupt callback
         cbs = [(b, i, ev) for b, i, ev in f.calls('make_callback')
